@@ -237,6 +237,17 @@ def run(chk):
             over = series[-1][2]
             (n1, c1, _), (n2, c2, _) = series[-2], series[-1]
             slope = math.log(max(c2, 1) / max(c1, 1)) / math.log(n2 / n1)
+            if over and len(series) >= 4:
+                # the budget only stops the measurement; whether the growth is polynomial is judged on the completed sizes
+                # (fromdict on n islands has n(n-1) migrations and compares each with all earlier ones: degree 4 in n,
+                # 2 in the number of migrations, and passes the budget at n = 48 without being superpolynomial)
+                (n1, c1, _), (n2, c2, _) = series[-3], series[-2]
+                slope_done = math.log(max(c2, 1) / max(c1, 1)) / math.log(n2 / n1)
+                fac = [b[1] / a[1] for a, b in zip(series[:-1], series[1:-1]) if a[1] > 0 and b[0] - a[0] == 2]
+                if slope_done <= MAX_DEGREE and n2 >= 24:
+                    over = False
+                    slope = slope_done
+                    chk.count("budget_reached_at_polynomial_growth")
             # successive growth factors per +2 demes at small sizes (exponential growth shows as a constant factor > 1)
             small = [(n, c) for n, c, _ in series if n <= 12]
             factors = [b[1] / a[1] for a, b in zip(small, small[1:]) if a[1] > 0]
